@@ -293,11 +293,16 @@ func (o *offsetDB) save(jobs map[pipeline.SourceID]*Job, mu *sync.RWMutex) {
 	_, err = file.Write(o.buf)
 	if err != nil {
 		logger.Errorf("can't write offsets file %s, %s", o.tmpOffsetsFile, err.Error())
+		// keep the previous offsets file: an incomplete snapshot must not replace it
+		_ = os.Remove(string(tmpWithRandom))
+		return
 	}
 
 	err = file.Sync()
 	if err != nil {
 		logger.Errorf("can't sync offsets file %s, %s", o.tmpOffsetsFile, err.Error())
+		_ = os.Remove(string(tmpWithRandom))
+		return
 	}
 
 	err = os.Rename(string(tmpWithRandom), o.curOffsetsFile)
